@@ -13,6 +13,11 @@ Proof. exact init_bitfield. Qed.
 Theorem C11_broadcast : forall m c pick m' r bc sp i, mstep m c pick = Ok (m', r, bc, sp) -> In (BHave i) bc ->
   exists a p, c = CPieceDone a /\ pget (m_peers m) a = Some p /\ p_piece_index p = Some i /\ have_at (m_status m') (N.to_nat i).
 Proof. exact have_broadcast_only_when_done. Qed.
+(* and conversely: a piece that becomes owned is broadcast in the same step (no owned piece goes unannounced to the
+   established connections) *)
+Theorem C11_owned_is_broadcast : forall m c pick m' r bc sp i,
+  mstep m c pick = Ok (m', r, bc, sp) -> ~ have_at (m_status m) i -> have_at (m_status m') i -> In (BHave (N.of_nat i)) bc.
+Proof. exact newly_owned_is_broadcast. Qed.
 Theorem C11_have_stays : forall m c pick m' r bc sp i, mstep m c pick = Ok (m', r, bc, sp) ->
   have_at (m_status m) i -> have_at (m_status m') i.
 Proof. exact have_absorbing. Qed.
@@ -43,3 +48,4 @@ Print Assumptions C11_actions.
 Print Assumptions C11_held_back.
 Print Assumptions C11_sent_at_once.
 Print Assumptions C11_flush.
+Print Assumptions C11_owned_is_broadcast.
